@@ -49,8 +49,10 @@ def as_expr(x: ast.AST | str) -> ast.AST:
     return ast.parse(x, mode='eval').body if isinstance(x, str) else x
 
 
-def equivalent_tests(a: ast.AST | str, b: ast.AST | str, max_atoms: int = 12) -> bool:
+def equivalent_tests(a: ast.AST | str, b: ast.AST | str, max_atoms: int = 12, fn: ast.AST | None = None) -> bool:
     ea, eb = as_expr(a), as_expr(b)
+    if fn is not None:
+        ea = inline_locals(fn, ea)
     atoms: list[str] = []
     atoms_of(ea, atoms)
     atoms_of(eb, atoms)
@@ -73,3 +75,46 @@ def implies_tests(a: ast.AST | str, b: ast.AST | str) -> bool:
         if evaluate(ea, val) and not evaluate(eb, val):
             return False
     return True
+
+
+def inline_locals(fn_node: ast.AST, expr: ast.AST, depth: int = 0) -> ast.AST:
+    """Replace names that are assigned exactly once in the function (plain `x = <expr>`) by their definition.
+
+    Makes shape rules insensitive to "extract a sub-expression into a local" refactors.
+    """
+    import copy
+    if depth > 4:
+        return expr
+    defs: dict[str, list[ast.AST]] = {}
+    params = set()
+    a = getattr(fn_node, 'args', None)
+    if a is not None:
+        params = {x.arg for x in a.posonlyargs + a.args + a.kwonlyargs}
+    todo = list(ast.iter_child_nodes(fn_node))
+    while todo:
+        n = todo.pop()
+        if isinstance(n, (ast.FunctionDef, ast.AsyncFunctionDef, ast.ClassDef, ast.Lambda)):
+            continue
+        if isinstance(n, ast.Assign):
+            for t in n.targets:
+                for x in ast.walk(t):
+                    if isinstance(x, ast.Name):
+                        defs.setdefault(x.id, []).append(n.value if (len(n.targets) == 1 and t is x) else None)
+        elif isinstance(n, (ast.AugAssign, ast.AnnAssign, ast.For, ast.With, ast.NamedExpr)):
+            tgt = getattr(n, 'target', None)
+            for x in (ast.walk(tgt) if tgt is not None else []):
+                if isinstance(x, ast.Name):
+                    defs.setdefault(x.id, []).append(None)
+        todo.extend(ast.iter_child_nodes(n))
+    single = {k: v[0] for k, v in defs.items() if len(v) == 1 and v[0] is not None and k not in params}
+
+    class R(ast.NodeTransformer):
+        def visit_Name(self, n: ast.Name) -> ast.AST:
+            if isinstance(n.ctx, ast.Load) and n.id in single:
+                return inline_locals(fn_node, copy.deepcopy(single[n.id]), depth + 1)
+            return n
+    return R().visit(copy.deepcopy(expr))
+
+
+def resolved_src(fn_node: ast.AST, expr: ast.AST) -> str:
+    return norm_src(inline_locals(fn_node, expr))
